@@ -11,6 +11,25 @@ VERIF = os.path.dirname(HERE)
 
 
 def run(repo="/repo", build=None, twin=False, rlimit=None, threads=16, extra_args=()):
+    """one Verus run; if the front end (rustc / Verus mode checker) rejects text that lies inside contracted functions
+    -- typically an invariant or hint that names a local variable the edited function no longer has -- those functions are
+    degraded to `external_body` + contract (exactly like a lost anchor) and the run is repeated once."""
+    res = _run(repo, build, twin, rlimit, threads, extra_args, None)
+    fe = res.get("front_end_errors") or []
+    if res.get("status") == "verus-failed" and fe and all(e.get("fn") for e in fe):
+        contracted = set(res.get("meta", {}).get("contracted", {}).keys()) if isinstance(res.get("meta", {}).get("contracted"), dict) else set(res.get("meta", {}).get("contracted", []))
+        forced = {}
+        for e in fe:
+            if e["fn"] in contracted:
+                forced.setdefault(e["fn"], e["message"][:200])
+        if forced and len(forced) <= 6 and all(e["fn"] in forced for e in fe):
+            res2 = _run(repo, build, twin, rlimit, threads, extra_args, forced)
+            res2["degraded_after_front_end_error"] = forced
+            return res2
+    return res
+
+
+def _run(repo, build, twin, rlimit, threads, extra_args, forced):
     build = build or os.path.join(VERIF, "build")
     os.makedirs(build, exist_ok=True)
     tag = "_twin" if twin else ""
@@ -21,6 +40,10 @@ def run(repo="/repo", build=None, twin=False, rlimit=None, threads=16, extra_arg
            "--out", out_rs, "--meta", meta_path]
     if twin:
         cmd.append("--twin")
+    if forced:
+        dpath = os.path.join(build, "degrade%s.json" % tag)
+        json.dump(forced, open(dpath, "w"))
+        cmd += ["--degrade", dpath]
     g = subprocess.run(cmd, capture_output=True, text=True)
     res = {"twin": twin, "gen_ok": g.returncode == 0, "gen_msg": (g.stdout + g.stderr).strip(), "gen_s": time.time() - t0}
     if g.returncode != 0:
